@@ -7,7 +7,12 @@
               sessions connecting / subscribing / unsubscribing / closing, and the client cache with the fill and the
               notification handling as two steps each; ONE subscriptions/listen request over several URIs of which the
               server's SubscribeHandler refuses any subset, one turn of the server's loop per step (Notify_mc_listen*.cfg:
-              no URI of a failed request stays subscribed, SubsOnlyCurrent).  Reachability witnesses guard against vacuity.
+              no URI of a failed request stays subscribed, SubsOnlyCurrent); feature sets with a SIZE (0 included) that
+              add / rm / clear changes empty and refill, under a listChanged capability that is fixed (explicit entry or
+              Has* option) or INFERRED from the features registered at the moment, sessions being told at their handshake
+              what the server advertises then (Notify_mc_caps*.cfg: whoever was told is owed the notification for every
+              later change - the one that removes the last feature included - and nobody else is).  Reachability witnesses
+              guard against vacuity.
   2. leads    configurations in which TLC is EXPECTED to find a counterexample (Notify_lead_*.cfg, run on NotifyGen so
               that the counterexample carries its scenario): the clean-up of a cancelled URI listen stream that deletes a
               newer subscription.  A lead is never a verdict: its scenario is replayed on the real code.
@@ -21,7 +26,16 @@
               NeverLost with modern URI unsubscribes).  Notify_lead_listen.cfg is a sensitivity witness of the same kind for
               a defect class the SDK never had (FailUndo = FALSE: a listen request that fails at its k-th URI leaves the
               k-1 URIs it had entered behind): TLC must find UpdatedExactlySubscribers violated, and the scenario is replayed
-              (on correct code the monitor stays silent).
+              (on correct code the monitor stays silent).  Notify_lead_caps.cfg likewise (SendGate = "effective": the server
+              decides whether to notify on the capability as it would be advertised after the change, so the removal of the
+              last feature of an inferred capability is never announced): TLC must find NeverLost violated; the scenario is
+              replayed for every notification and both eras (regression signature NeverLost:<era>:<n>-set-emptied:<mode>).
+              Notify_lead_cold.cfg / Notify_lead_coldread.cfg (ColdBump = FALSE: an invalidation that finds nothing cached - no page
+              of the list cache, nothing under the URI in the read cache - skips the generation bump): the fill races the
+              notification while the cache is EMPTY - at the first call ever, empty again after an earlier notification had
+              emptied it, empty again after everything in it expired (Expire) - as directed scenario families (NotifyGen!Script*);
+              TLC must refute Fresh for each, and each is replayed for every kind, with one page and with several (stale first
+              page glued to fresh later pages), and for resources/read.
   3. generate spec/NotifyGen.tla (scenario discipline, history of environment actions): every complete behaviour of a
               small timing configuration (1-2 changes, 3 in the thorough tier, against the timer window, sessions
               closing in between) and seeded simulations of three larger configurations.
@@ -42,7 +56,20 @@ NOTIF_OF = {"tools": "tools", "prompts": "prompts", "resources": "resources", "t
 WANT_ALL = list(NOTIFS)
 CLOBBER_SIG = "NeverLost:modern:uri-unsubscribe-drops-list-changed"
 # lead families whose defect the SDK does not have (repaired, or never present): TLC must find them with the switch off
-WITNESS = {"cache": "LeadFresh", "unsub": "LeadNeverLost", "listen": "LeadUpdated"}
+WITNESS = {"cache": "LeadFresh", "unsub": "LeadNeverLost", "listen": "LeadUpdated", "caps": "LeadNeverLost",
+           "cold": "LeadFresh", "coldread": "LeadFresh"}
+# the fill races the notification while the cache is EMPTY: at the first call ever, or empty AGAIN after an invalidation /
+# after expiry (directed families NotifyGen!Script*: TLC chooses arguments and interleavings and must refute Fresh with
+# ColdBump = FALSE; the undirected search for the first-call race is Notify_lead_cache/read.cfg)
+COLD = {"first": {"Script": "<- ScriptFirst"},
+        "refill": {"Script": "<- ScriptRefill", "MaxChanges": "= 2", "MaxCalls": "= 3", "MaxSteps": "= 11"},
+        "expired": {"Script": "<- ScriptExpired", "MaxCalls": "= 3", "MaxSteps": "= 9"}}
+COLDREAD = {"first": {"Script": "<- ScriptReadFirst"},
+            "refill": {"Script": "<- ScriptReadRefill", "MaxUpdates": "= 2", "MaxCalls": "= 3", "MaxSteps": "= 9"},
+            "expired": {"Script": "<- ScriptReadExpired", "MaxCalls": "= 3", "MaxSteps": "= 9"}}
+# kinds of a notification (configurations about the feature sets becoming empty) and their initial sizes in the model
+CAPS_KINDS = {"tools": ["tools"], "prompts": ["prompts"], "resources": ["resources", "templates"]}
+DIR_OP = {"add": "add", "rm": "rm1", "clear": "clear"}
 RESUB_SIG = "UpdatedExactlySubscribers:missing:modern:stale-unsubscribe-overtakes-resubscribe"
 
 
@@ -108,6 +135,7 @@ def front(v, tier, seed):
     mcs = ["Notify_mc_cache.cfg", "Notify_mc_core.cfg", "Notify_mc_shared.cfg", "Notify_mc_ttl.cfg",
            "Notify_mc_timed.cfg", "Notify_mc_off.cfg", "Notify_mc_read.cfg", "Notify_mc_unsub.cfg"]
     mcs.append("Notify_mc_listen.cfg" if tier == "quick" else "Notify_mc_listen_t.cfg")
+    mcs += ["Notify_mc_caps.cfg", "Notify_mc_caps_shared.cfg" if tier == "quick" else "Notify_mc_caps_shared_t.cfg"]
     if tier == "thorough":
         mcs = ["Notify_mc_cache_t.cfg", "Notify_mc_core_t.cfg"] + mcs
     for c in mcs:
@@ -115,15 +143,19 @@ def front(v, tier, seed):
     # 1b. vacuity: each witness must be violated
     wits = [("Notify_mc_core.cfg", w) for w in ("NeverWindow", "NeverOrphan", "NeverGot", "NeverStopped")]
     wits += [("Notify_mc_ttl.cfg", "NeverHit"), ("Notify_mc_timed.cfg", "NeverWindow"), ("Notify_mc_timed.cfg", "NeverOrphan"),
-             ("Notify_mc_listen.cfg", "NeverPartial")]
+             ("Notify_mc_listen.cfg", "NeverPartial"), ("Notify_mc_caps.cfg", "NeverEmptied"), ("Notify_mc_caps.cfg", "NeverUntold")]
     for c, w in wits:
         add(("wit", c, w), tlc("NotifyMC", c, cfg_text(c, INVARIANTS=w), workers=1, timeout=600, heap_gb=2))
     # 2. leads
-    lds = [(("cache", k), "Notify_lead_cache.cfg", {"Kinds": tla_set([k])}) for k in KINDS]
+    # (the list-cache witnesses are searched for "tools"; the model is symmetric in the kind: run() replays them for every kind)
+    lds = [(("cache", "tools"), "Notify_lead_cache.cfg", {})]
     lds.append((("cache", "read"), "Notify_lead_read.cfg", {}))
+    lds += [(("cold", x), "Notify_lead_cold.cfg", sub) for x, sub in COLD.items()]
+    lds += [(("coldread", x), "Notify_lead_coldread.cfg", sub) for x, sub in COLDREAD.items()]
     lds += [(("unsub", k), "Notify_lead_unsub.cfg", {"Kinds": tla_set([k])}) for k in NOTIFS]
     lds.append((("resub", "u1"), "Notify_lead_resub.cfg", {}))
     lds.append((("listen", "u1u2"), "Notify_lead_listen.cfg", {}))
+    lds += [(("caps", n), "Notify_lead_caps.cfg", {"Kinds": tla_set(ks)}) for n, ks in CAPS_KINDS.items()]
     for key, c, sub in lds:
         add(("lead",) + key, tlc("NotifyGen", c, cfg_text(c, **sub), workers=1, timeout=900, heap_gb=3))
     # 3. generation
@@ -131,9 +163,18 @@ def front(v, tier, seed):
     add(("gen", "window"), tlc("NotifyGen", wcfg, workers=2, timeout=1500, heap_gb=6))
     exh = (("cachex_list", "Notify_gen_cachex_list.cfg"), ("cachex_read", "Notify_gen_cachex_read.cfg"),
            ("subs", "Notify_gen_subs.cfg"), ("listen", "Notify_gen_listen.cfg"),
-           ("listen_g", "Notify_gen_listen_g.cfg"))
+           ("listen_g", "Notify_gen_listen_g.cfg"),
+           # feature sets that become empty and non-empty again: capability inferred / fixed; resources + templates
+           ("caps", "Notify_gen_caps.cfg"), ("caps_fixed", "Notify_gen_caps.cfg"), ("caps_shared", "Notify_gen_caps_shared.cfg"))
     for tag, c in exh:
-        add(("gen", tag), tlc("NotifyGen", c, workers=1, timeout=1500, heap_gb=4))
+        text = None
+        if tag.startswith("caps"):
+            # scripts of up to 5 steps (thorough: 6)
+            sub = {"MaxSteps": "= 5"} if tier == "quick" else {}
+            if tag == "caps_fixed":
+                sub["CapMode"] = "<- ModeFixed"
+            text = cfg_text(c, **sub)
+        add(("gen", tag), tlc("NotifyGen", c, text, workers=1, timeout=1500, heap_gb=4))
     num = {"quick": 100, "thorough": 2500}[tier]
     sims = [("mix", "Notify_gen_mix.cfg", num), ("ttl", "Notify_gen_ttl.cfg", num), ("off", "Notify_gen_off.cfg", num // 2)]
     for tag, c, n in sims:
@@ -222,6 +263,24 @@ def listen_then_update(steps):
     return False
 
 
+def cold_race(steps):
+    """A list / read is issued while the put gate is held, the feature set / resource changes, and after the gate was
+    released the client lists / reads again: the fill races the notification (from an empty cache when it is the first call)."""
+    held = inflight = changed = False
+    for op, a1, a2 in steps:
+        if op == "hold" and a1 == "put":
+            held = True
+        elif op == "release" and a1 == "put":
+            held = False
+        elif op == "list":
+            if inflight and changed and not held:
+                return True
+            inflight = inflight or held
+        elif op in ("change", "tchange", "updated") and inflight:
+            changed = True
+    return False
+
+
 def steps_of(p):
     return [[s["op"], s["a1"], s["a2"]] for s in p["steps"]]
 
@@ -240,11 +299,14 @@ CONF = {
     "off": (["L1", "M1", "M2"], ["L1", "M1"], 0, ["tools"], ["u1"]),
     "listen": (["M1", "M2"], ["M1", "M2"], 0, [], ["u1", "u2"]),
     "listen_g": (["M1"], ["M1"], 0, [], ["u1", "u2"]),
+    "caps": (["L1", "M1"], ["L1"], 0, [], []),
+    "caps_fixed": (["L1", "M1"], ["L1"], 0, [], []),
+    "caps_shared": (["L1", "M1"], ["L1"], 0, [], []),
 }
 
 
 INIT_SUB = {"cachex_read": ["M1"]}
-EXHAUSTIVE = ("window", "cachex_list", "cachex_read", "subs", "listen", "listen_g")
+EXHAUSTIVE = ("window", "cachex_list", "cachex_read", "subs", "listen", "listen_g", "caps", "caps_fixed", "caps_shared")
 # ServerOptions.PageSize: the base features alone fill two pages
 PAGED = {"cachex_list": [2], "ttl": [0, 2], "lead": [0, 2]}
 
@@ -256,21 +318,59 @@ def sess_spec(name, rng, want_m2=True):
     return {"name": name, "era": "modern", "proto": "", "want": want}
 
 
-def concretise(sid, tag, steps, rng, sessions, init_on, ttl, cap_off, uris, autolist=False, yield_=0):
+def caps_conf(rng, n, mode, sizes):
+    """Server configuration of a scenario about notification n whose feature sets may become empty.
+    mode: "inferred" | "fixed" (concretised as an explicit Capabilities entry or the Has* option); sizes: kind -> size."""
+    init = {k: 0 for k in KINDS if NOTIF_OF[k] == n}
+    init.update(sizes)
+    how = "inferred" if mode == "inferred" else rng.choice(["explicit", "has"])
+    return {"capMode": {n: how}, "initSize": init, "capsNil": how != "explicit" and rng.random() < 0.5}
+
+
+def rename_norm(x, to):
+    """The single-kind configurations are generated for "tools"; the model is symmetric in the kind: the normalised
+    projection of the same behaviour for kind `to`."""
+    if x is None or to in (None, "tools"):
+        return x
+    n = NOTIF_OF[to]
+    ren = lambda a: n if a == "tools" else a  # noqa
+    y = dict(x)
+    for f in ("lsub", "ref", "adv"):
+        y[f] = {ren(a): b for a, b in x[f].items()}
+    y["nh"] = {"%s/%s" % (k.split("/")[0], ren(k.split("/")[1])): c for k, c in x["nh"].items()}
+    y["_topics"] = {ren(a) for a in x["_topics"]}
+    return y
+
+
+def empties(p):
+    """The script leaves every feature set of the notification empty at some point."""
+    for x in [s["pre"] for s in p["steps"][1:]] + [p["final"]]:
+        sz = x.get("size") or {}
+        if sz and all(v == 0 for v in sz.values()):
+            return True
+    return False
+
+
+def concretise(sid, tag, steps, rng, sessions, init_on, ttl, cap_off, uris, autolist=False, yield_=0, caps=None, page=None):
     st = [["connect", s, ""] for s in init_on]
     st += [["subscribe", s, u] for s in INIT_SUB.get(tag, []) for u in uris]
     npre = len(st)
-    page = rng.choice(PAGED.get(tag, [0]))
+    page = rng.choice(PAGED.get(tag, [0])) if page is None else page
     for op, a1, a2 in steps:
-        if op in ("change", "tchange"):
-            # "add" sorts after the base features (a later page when paginated), "addlo" before them (first page)
+        if op in ("change", "tchange") and a2 in DIR_OP:
+            # exact directions (the set may become empty): one feature more, one less, all removed by one call
+            a2 = DIR_OP[a2]
+        elif op in ("change", "tchange"):
+            # "mod": "add" sorts after the base features (a later page when paginated), "addlo" before them (first page)
             if tag == "lead":
                 a2 = "addlo" if page else "add"  # the change must land on the page whose fill is held: the first one
             else:
                 a2 = rng.choice(["add", "addlo", "rm"] if (page and tag != "cachex_list") else ["add", "add", "rm"])
         st.append([op, a1, a2])
-    return {"id": sid, "tag": tag, "ttl": ttl, "capOff": cap_off, "uris": uris, "sessions": [sess_spec(s, rng) for s in sessions],
-            "steps": st, "autolist": autolist, "yield": yield_, "npre": npre, "pageSize": page}
+    sc = {"id": sid, "tag": tag, "ttl": ttl, "capOff": cap_off, "uris": uris, "sessions": [sess_spec(s, rng) for s in sessions],
+          "steps": st, "autolist": autolist, "yield": yield_, "npre": npre, "pageSize": page, "msteps": [list(s) for s in steps]}
+    sc.update(caps or {})
+    return sc
 
 
 def norm_proj(p, sessions=None):
@@ -284,7 +384,8 @@ def norm_proj(p, sessions=None):
     lsub = {n: sorted(x) for n, x in (src.get("lsub") or {}).items()}
     rsub = {u: sorted(x) for u, x in (src.get("rsub") or {}).items()}
     ref = dict(src.get("ref") or {})
-    return {"nh": nh, "lsub": lsub, "rsub": rsub, "ref": ref}
+    adv = dict(src.get("adv") or {})
+    return {"nh": nh, "lsub": lsub, "rsub": rsub, "ref": ref, "adv": adv}
 
 
 def proj_equal(model, real):
@@ -300,10 +401,14 @@ def proj_equal(model, real):
     for n, x in model["ref"].items():
         if bool(real["ref"].get(n)) != bool(x):
             return False
+    # what Server.capabilities() advertises (listChanged) for the model's notifications
+    for n, x in model["adv"].items():
+        if n in real["adv"] and bool(real["adv"][n]) != bool(x):
+            return False
     return True
 
 
-def model_projs(p):
+def model_projs(p, kind=None):
     """Projection after each step (pre of the next step), and the final one after the drain."""
     pres = [norm_proj(s["pre"]) for s in p["steps"]]
     fin = norm_proj(p["final"])
@@ -311,7 +416,7 @@ def model_projs(p):
     seq = pres[1:] + [None]  # the state after the last step is followed by the drain: compared through `final`
     for x in pres + [fin]:
         x["_topics"] = topics
-    return seq, fin
+    return [rename_norm(x, kind) for x in seq], rename_norm(fin, kind)
 
 
 # ---------------------------------------------------------------------------
@@ -403,6 +508,15 @@ def signature(f, trows, idx):
                 if prev and not cur and unsubbed and s in (sn.get("sessions") or []):
                     return CLOBBER_SIG
                 prev = cur
+        # did the last change leave every feature set of the notification empty?
+        names, reset = {}, next((r for r in trows if r.get("ev") == "reset"), {})
+        for r in trows[:idx + 1]:
+            if r.get("ev") == "ready":
+                names = {k: list(nm or []) for k, nm in (r.get("names0") or {}).items()}
+            elif r.get("ev") == "change.end":
+                names[r.get("k")] = r.get("names") or []
+        if names and not any(names.get(k) for k in KINDS if NOTIF_OF[k] == x):
+            return "NeverLost:%s:%s-set-emptied:%s" % (era, x, (reset.get("capMode") or {}).get(x) or "inferred")
         return "NeverLost:%s:%s" % (era, ops_pattern(trows, idx, x))
     if clause == "OnlyEntitled":
         closed = any(r.get("ev") == "close.begin" and r.get("s") == s for r in trows[:idx])
@@ -473,8 +587,14 @@ def run(tier, seed, replay):
         "action the SDK runs to quiescence, except behind the three gates and at race steps",
         "sessions run over mcp.NewInMemoryTransports (FIFO, lossless); connecting a session (Server.Connect + Client.Connect + "
         "the subscriptions/listen acknowledgement) is one environment step, never placed at an instant at which a timer is due",
-        "the server advertises listChanged for every kind (one base feature each) unless the scenario disables the capability; "
+        "the server has three base features of every kind and no configured capability (listChanged is inferred and advertised "
+        "throughout) unless the scenario disables the capability; the caps* scenarios choose where the capability comes from "
+        "(explicit ServerOptions.Capabilities entry / HasTools-style option / inferred; ServerOptions.Capabilities nil or not) and "
+        "start with 0 or 1 features of a kind, which add / remove-one / remove-all changes empty and refill; "
         "result TTLs are set by a server receiving middleware (0 or 60 s)",
+        "a session is owed list-changed notifications from the moment it was told listChanged (legacy: initialize result; "
+        "2026-07-28: subscriptions/acknowledged) whatever becomes of the feature sets; a legacy session that was not told is owed "
+        "none and may be sent them",
         "entitlement is what the protocol grants: legacy session = connected; 2026-07-28 session = listen request acknowledged for "
         "that notification; URI subscription = subscribe acknowledged until unsubscribe/close; a subscriptions/listen request naming "
         "several URIs subscribes the session to all of them when acknowledged and to none of them when the server fails it",
@@ -482,6 +602,9 @@ def run(tier, seed, replay):
         "through the unexported ClientSession.subscriptionsListen (ClientSession.Subscribe only sends single-URI requests)",
         "the order of a change and the timer callback at the same instant is not controllable without a hook: race steps are "
         "repeated and the orders observed are counted (coverage.race_orders)",
+        "expiry of cached results is one environment step (virtual time advances beyond the ttl of everything the client has "
+        "cached, taken only while no debounce timer is armed); the model empties the cache at that step, the SDK evicts an "
+        "expired entry at its next lookup",
         "TLC exhaustive results are for the bounded constants of spec/Notify_mc_*.cfg",
     ]
     out = vlib.outdir(PID)
@@ -498,9 +621,23 @@ def run(tier, seed, replay):
         # leads
         for key, clause, p in lead_list:
             fam, k = key
-            if fam == "cache":
-                uris = ["u1"] if k == "read" else []
-                sc = concretise("regress.cache.%s" % k, "lead", steps_of(p), rng, ["M1"], ["M1"], 60000, [], uris)
+            if fam in ("cache", "cold") and k != "read":
+                # the witness found for "tools", for every kind; the cold-cache families with one page and with several
+                # (the stale first page is then glued to later pages that are fresh)
+                for kind in KINDS:
+                    st = [[s[0]] + [kind if x == "tools" else x for x in s[1:]] for s in steps_of(p)]
+                    for page in ([None] if fam == "cache" else [0, 2]):
+                        sid = "regress.cache.%s" % kind if fam == "cache" else "regress.cold.%s.%s.p%d" % (k, kind, page)
+                        scen.append(concretise(sid, "lead", st, rng, ["M1"], ["M1"], 60000, [], [], page=page))
+                continue
+            if fam in ("cache", "coldread"):
+                sid = "regress.cache.read" if fam == "cache" else "regress.coldread.%s" % k
+                sc = concretise(sid, "lead", steps_of(p), rng, ["M1"], ["M1"], 60000, [], ["u1"])
+            elif fam == "caps":
+                # the last feature of every kind of notification k is removed while a legacy and a 2026-07-28 session that
+                # were told listChanged (inferred from the one registered feature) are connected
+                sc = concretise("regress.caps.%s" % k, "lead", steps_of(p), rng, ["L1", "M1"], ["L1", "M1"], 0, [], [],
+                                caps=caps_conf(rng, k, "inferred", {x: 1 for x in CAPS_KINDS[k]}))
             else:
                 sc = concretise("%s.%s.%s" % ("regress" if fam in WITNESS else "lead", fam, k), "lead", steps_of(p), rng,
                                 ["M1"], ["M1"], 0, [], ["u1", "u2"] if fam == "listen" else ["u1"])
@@ -526,6 +663,8 @@ def run(tier, seed, replay):
         # quick tier: the exhaustive cache sets are run completely up to 5 steps, the longer scripts by seeded sample
         longer = sorted(k for k in groups if k[0].startswith("cachex") and len(json.loads(k[1])) > 5)
         keep = set(rng.sample(longer, min(len(longer), 200))) if tier == "quick" else set(longer)
+        # ... and every script in which a fill races the notification (the first call ever: the cache is empty)
+        keep |= set(k for k in longer if cold_race(json.loads(k[1])))
         # subscription scripts: only those that end by telling who gets a resource update; quick tier: all up to 3
         # steps and a seeded sample of the 4-step ones
         sub4 = sorted(k for k in groups if k[0] == "subs" and len(json.loads(k[1])) > 3 and '"updated"' in k[1])
@@ -544,8 +683,23 @@ def run(tier, seed, replay):
         else:
             lig5 = [k for k in lig if len(json.loads(k[1])) > 4]
             keep |= set(k for k in lig if len(json.loads(k[1])) <= 4) | set(rng.sample(lig5, min(len(lig5), 1500)))
+        # feature sets becoming empty: every script up to 3 steps (thorough: 4) and a seeded sample of the longer
+        # ones, two thirds of it among those that leave the sets of the notification empty at some point
+        for ctag, short, nsample in (("caps", {"quick": 3, "thorough": 4}[tier], {"quick": 120, "thorough": 900}[tier]),
+                                     ("caps_fixed", 2, {"quick": 50, "thorough": 300}[tier]),
+                                     ("caps_shared", {"quick": 3, "thorough": 4}[tier], {"quick": 80, "thorough": 600}[tier])):
+            ck = sorted(k for k in groups if k[0] == ctag)
+            keep |= set(k for k in ck if len(json.loads(k[1])) <= short)
+            rest = [k for k in ck if k not in keep]
+            emp = [k for k in rest if empties(groups[k][0])]
+            pick = set(rng.sample(emp, min(len(emp), 2 * nsample // 3)))
+            oth = [k for k in rest if k not in pick]
+            keep |= pick | set(rng.sample(oth, min(len(oth), nsample - len(pick))))
+        ckind = 0
         for (tag, key), ps in sorted(groups.items()):
             steps = json.loads(key)
+            if tag.startswith("caps") and (tag, key) not in keep:
+                continue
             if tag.startswith("cachex") and len(steps) > 5 and (tag, key) not in keep:
                 continue
             if tag == "subs" and ('"updated"' not in key or (len(steps) > 3 and (tag, key) not in keep)):
@@ -555,15 +709,28 @@ def run(tier, seed, replay):
             sessions, init_on, ttl, cap_off, uris = CONF[tag]
             racy = any(s[0] == "tchange" for s in steps)
             variants = [(False, 0)]
-            if racy:
+            kind, caps = None, None
+            if tag.startswith("caps"):
+                # the single-kind scripts are run for every kind in turn
+                ckind += 1
+                kind = KINDS[ckind % len(KINDS)] if tag != "caps_shared" else None
+                if kind:
+                    steps = [[s[0], kind if s[0] in ("change", "tchange") else s[1], s[2]] for s in steps]
+                    caps = caps_conf(rng, NOTIF_OF[kind], "fixed" if tag == "caps_fixed" else "inferred", {kind: 1})
+                else:
+                    caps = caps_conf(rng, "resources", "inferred", {"resources": 1, "templates": 0})
+            if racy and tag.startswith("caps"):
+                variants = [(False, 0)] * (reps // 2) + [(False, 4)]
+            elif racy:
                 variants = [(False, 0)] * reps + [(False, 4)]
             elif tag not in EXHAUSTIVE and rng.random() < 0.3:
                 variants = [(True, 0)]
             for (al, y) in variants:
                 i += 1
-                sc = concretise("%s.%d" % (tag, i), tag, steps, rng, sessions, init_on, ttl, cap_off, uris, autolist=al, yield_=y)
+                sc = concretise("%s.%d" % (tag, i), tag, steps, rng, sessions, init_on, ttl, cap_off, uris, autolist=al, yield_=y, caps=caps)
+                sc["msteps"] = json.loads(key)
                 scen.append(sc)
-                alts[sc["id"]] = (ps, tag in EXHAUSTIVE)
+                alts[sc["id"]] = (ps, tag in EXHAUSTIVE, kind)
         v.cov["tlc_generated_scenarios"] = len(groups)
 
     scen_path = os.path.join(out, "scenarios.ndjson")
@@ -647,7 +814,8 @@ def run(tier, seed, replay):
                 o = race_order(trows, i)
                 if o:
                     race_orders[o] = race_orders.get(o, 0) + 1
-        key = vlib.sha([sc.get("steps"), sc.get("ttl"), sc.get("capOff"), sc.get("autolist"), [s.get("era") for s in sc.get("sessions", [])]])
+        key = vlib.sha([sc.get("steps"), sc.get("ttl"), sc.get("capOff"), sc.get("autolist"), [s.get("era") for s in sc.get("sessions", [])],
+                        sc.get("capMode"), sc.get("capsNil"), sc.get("initSize")])
         if key not in distinct:
             distinct.add(key)
             ops = {s[0] for s in sc.get("steps", [])}
@@ -655,7 +823,7 @@ def run(tier, seed, replay):
                 nontrivial += 1
         if tid not in alts or any(r.get("ev") == "panic" for r in trows):
             continue
-        ps, complete = alts[tid]
+        ps, complete, kind = alts[tid]
         npre = sc.get("npre", 0)
         real = [norm_proj(r) for _, r in steplines][npre:]
         q = next((r for r in trows if r.get("ev") == "quiesce"), None)
@@ -666,7 +834,7 @@ def run(tier, seed, replay):
         compared += 1
         ok_any, worst = False, None
         for p in ps:
-            seq, fin = model_projs(p)
+            seq, fin = model_projs(p, kind)
             upto = len(seq) - 1
             bad = next((j for j in range(upto) if not proj_equal(seq[j], real[j])), None)
             if bad is None and not proj_equal(fin, realfin):
@@ -683,8 +851,8 @@ def run(tier, seed, replay):
         if first_race is not None and worst is not None and worst >= first_race:
             # the real run took an outcome of the race under which the model does not continue with this very script
             # (or, for simulated scripts, an outcome the simulation did not produce)
-            pa = prefix_alts.get((sc.get("tag"), json.dumps([[x[0], x[1], ""] for x in st[:first_race + 1]])))
-            if not complete or pa is None or any(proj_equal(a, real[first_race]) for a in pa):
+            pa = prefix_alts.get((sc.get("tag"), json.dumps(sc.get("msteps", [])[:first_race + 1])))
+            if not complete or pa is None or any(proj_equal(rename_norm(a, kind), real[first_race]) for a in pa):
                 racy_unmatched += 1
                 continue
         where = "after the drain" if worst == len(st) else "after step %d %s" % (worst + 1, st[worst])
@@ -702,8 +870,9 @@ def run(tier, seed, replay):
         v.cov["scenarios_by_config"][s.get("tag", "replay")] = v.cov["scenarios_by_config"].get(s.get("tag", "replay"), 0) + 1
     v.cov["rule"] = ("scenarios = environment-action scripts generated by TLC from spec/NotifyGen.tla (every complete behaviour of the timing "
                      "configuration; seeded simulations of the mixed / positive-ttl / capability-off configurations; the counterexamples of the "
-                     "lead configurations), each run on a real Server and real Client sessions under synctest; race scenarios are repeated; "
-                     "distinct by (steps, ttl, capabilities, autolist, session eras); non-trivial = at least one connected session and one "
+                     "lead configurations; every complete behaviour up to 6 steps of the configurations in which a feature set becomes empty "
+                     "and non-empty again under an inferred / fixed capability: all short scripts and a seeded sample of the longer ones), each run on a real Server and real Client sessions under synctest; race scenarios are repeated; "
+                     "distinct by (steps, ttl, capabilities and where they come from, initial sizes, autolist, session eras); non-trivial = at least one connected session and one "
                      "change or resource update")
     if not replay and tier == "quick" and not (race_orders.get("callback-first") and race_orders.get("change-inside-window(reset-then-callback)")):
         v.cov["race_window_note"] = "only one order of (change, timer callback) at the same instant was observed in this run"
